@@ -1,7 +1,7 @@
 (* C05 — Every emitted message is well-formed MIDI. *)
 From Coq Require Import List NArith ZArith.
 From HIDI Require Import Base.AList Model.Notes Model.Device Model.Parser Model.AnalogF Model.AnalogSpec Proofs.DeviceBasics Proofs.DeviceWf
-  Proofs.ParserDevice Proofs.AnalogGrid Proofs.AnalogProofs.
+  Proofs.ParserDevice Proofs.AnalogGrid Proofs.AnalogProofs Proofs.AnalogGeneral Proofs.AnalogGeneral3.
 Import ListNotations.
 Open Scope N_scope.
 
@@ -66,3 +66,13 @@ Theorem C05_grid_axis_messages : forall b g raw,
   forallb wf_msgb (axis_msgs g raw) = true.
 Proof. exact grid_wf. Qed.
 Print Assumptions C05_grid_axis_messages.
+
+(* ... and off the grid as well: for EVERY axis range within int32 (minimum <= 0 < maximum, deadzone_at_center only with
+   minimum 0), every raw value of the range, every finite deadzone 0 <= dz <= 1 - 2^-10, every flag / kind combination and
+   controller numbers below 128 ([cfg_dom], Proofs/AnalogGeneral3.v) every message of an axis event is well-formed - from
+   the real-number semantics of binary64 (Flocq), no evaluation.  Outside this domain (non-finite or larger deadzones, which
+   the parser accepts) the run-time monitor remains the only check. *)
+Theorem C05_general_axis_messages : forall g raw,
+  cfg_dom g -> (q_mn g <= raw <= q_mx g)%Z -> forallb wf_msgb (axis_msgs g raw) = true.
+Proof. exact axis_msgs_wf. Qed.
+Print Assumptions C05_general_axis_messages.
